@@ -229,7 +229,10 @@ func (e *Engine) Load(name string) (*Template, error) {
 				if tsLoader, ok := tmpl.loader.(TimestampAwareLoader); ok {
 					// Get the current modification time
 					currentModTime, err := tsLoader.GetModifiedTime(name)
-					if err != nil || currentModTime > tmpl.lastModified {
+					// Any timestamp other than the remembered one counts as a
+					// change: with several search paths the name may now resolve
+					// to an older file (the newer copy was removed)
+					if err != nil || currentModTime != tmpl.lastModified {
 						needsReload = true
 					}
 				}
